@@ -36,6 +36,12 @@ def generate(rng, tier):
     ordered = rng.random() < 0.6
     order = rng.choice(ORDERS)
     ncompat = rng.choice([3, 4, 6, 8])
+    # SCALE: a whole observing session - dozens of frames handed over in one list (bulk paths that only engage beyond
+    # some length are invisible with a handful of frames)
+    big = rng.random() < (0.07 if tier == "quick" else 0.12)
+    if big:
+        ncompat = rng.choice([40, 48, 70])
+        order = rng.choice(["ABACAD" * 14, "ABACAD" * 14, "AB" * 50, "ABACADAEAFAGAH" * 3])
     pool = []
     for i in range(ncompat):
         pool.append({"kind": "ok", "tchans": rng.choice([2, 3, 4]), "t_start": 1000.0 * i + rng.choice([0.0, 5.0]),
@@ -47,6 +53,8 @@ def generate(rng, tier):
         pool.append({"kind": "nonframe", "what": nf})
     npool = len(pool)
     init = [rng.randrange(ncompat) for _ in range(rng.choice([0, 0, 1, 2, 3, 4]))]
+    if big and rng.random() < 0.6:
+        init = rng.sample(range(ncompat), rng.choice([32, 33, 36, 40]))
     if rng.random() < 0.1:
         init.append(rng.randrange(npool))
 
@@ -88,6 +96,10 @@ def generate(rng, tier):
             ops.append({"op": "by_label", "label": rng.choice(list(order) + ["A", "Z"])})
         else:
             ops.append({"op": "set_order", "order": rng.choice(ORDERS + ["ABACADAEAFAGAH"])})
+    if big:
+        at = rng.randrange(min(len(ops), 4) + 1)
+        ops.insert(at, {"op": "extend", "items": rng.sample(range(ncompat), rng.choice([32, 34, 40]))})
+        ops.insert(at + 1, {"op": "by_label", "label": "A"})
     for op in ops:
         # reading the aggregate properties is itself scheduled: reading fills any cache, not reading lets it go stale
         op["observe"] = rng.random() < 0.6
